@@ -72,7 +72,7 @@ impl RomImage {
     pub fn stamp_banks(&mut self) {
         let banks = self.banks();
         for b in 0..banks {
-            for off in [0x0000usize, 0x0001, 0x2000, 0x3ffe] {
+            for off in [0x0000usize, 0x2000, 0x3ffe] {
                 if b == 0 && off < 0x150 && off >= 0x100 {
                     continue;
                 }
